@@ -67,6 +67,10 @@ Calls(cls, b) ==
   \* one-sided functions (registered for the operator as FIRST operand only) called with the operator second: not in SpecSecond, so the
   \* dispatcher has to refuse - never answer with the operands swapped
   \cup { <<"second_refused", f, 0>> : f \in {"torch.div", "torch.linalg.solve", "Tensor.div"} }
+  \* a batch of constants of mixed sign (one per batch member, shape b x 1 x 1) on classes that fold constants into their own data
+  \cup (IF Len(b) > 0 /\ cls \in {"Root", "LowRankRoot", "Chol", "Dense", "Toeplitz", "Diag", "Kron"} THEN { <<"first", "mul", 6>> } ELSE {})
+  \* python scalars that are not exactly representable in float32 (0.1, 1e-50): the scalar must enter in the operator's precision
+  \cup { <<"scalar_precision", f, 0>> : f \in {"torch.mul", "torch.mul_second", "torch.div", "tiny"} }
   \* isclose with equal_nan: X = A with one entry replaced by NaN on both sides
   \cup { <<"first", "isclose_nan", 0>> }
 
@@ -105,6 +109,8 @@ Eval(c) ==
   LET k == c[1] f == c[2] v == c[3] A == dense R == [relational |-> TRUE] IN
   CASE k = "first" /\ f = "add" -> LET X == IF v = 2 THEN BcT ELSE SameT IN [arg |-> X, expect |-> T_Add(A, X)]
     [] k = "first" /\ f = "sub" -> LET X == IF v = 2 THEN BcT ELSE SameT IN [arg |-> X, expect |-> T_Sub(A, X)]
+    [] k = "first" /\ f = "mul" /\ v = 6 -> LET X == T_Make(desc.b \o <<1, 1>>, LAMBDA idx : 3 - 5 * (T_Ravel(idx, desc.b \o <<1, 1>>) % 2)) IN [arg |-> X, expect |-> T_Mul(A, X)]
+    [] k = "scalar_precision" -> [arg |-> None, expect |-> R]
     [] k = "first" /\ f = "mul" /\ v >= 3 -> LET X == IF v = 3 THEN SameT ELSE IF v = 4 THEN BcT ELSE RowT IN [arg |-> X, expect |-> T_Mul(A, X)]
     [] k = "first" /\ f = "mul" -> [arg |-> T_Scalar(-2), expect |-> T_Scale(A, -2)]
     [] k = "first" /\ f = "div" -> [arg |-> T_Scalar(4), expect |-> [shape |-> A.shape, data |-> A.data, den |-> 4]]
